@@ -76,7 +76,7 @@ def cases(draw):
     entry = st.one_of(st.tuples(ks, st.integers(0, n - 1)).map(list),
                       st.tuples(st.just('fn'), hot, st.integers(1, 25), st.integers(0, n - 1)).map(list))
     schedule = [draw(entry) for _ in range(npre)]
-    return {'sessions': sessions, 'schedule': schedule}
+    return {'sessions': sessions, 'schedule': schedule, 'register_inside': draw(st.integers(0, 3)) == 0}
 
 
 # ------------------------------------------------------------------------------------------------
@@ -137,8 +137,9 @@ def run_schedule(case):
     prefix = sys.modules['cpppo'].__file__.rsplit('/', 1)[0] + '/'
     sched = Scheduler(case['schedule'], trace_prefixes=(prefix,), line_files=LINE_FILES)
     # sessions registered up-front, untraced and serially
+    inside = bool(case.get('register_inside'))      # Register Session issued by the session threads themselves, under the schedule
     try:
-        sessions = [sim.Session(dev, ('10.0.0.1', 5000 + i)) for i in range(n)]      # several clients of one host
+        sessions = [sim.Session(dev, ('10.0.0.1', 5000 + i), register=not inside) for i in range(n)]      # several clients of one host
     except AssertionError as exc:
         dev.close()
         return {'setup_failed': repr(exc)[:300]}
@@ -151,6 +152,8 @@ def run_schedule(case):
         def run():
             seq = 0
             sess = sessions[i]
+            if inside:
+                sess.register(machine=machines[i])
             for rq in case['sessions'][i]:
                 kinds = rq['members'] if rq['kind'] == 'bundle' else [rq['kind']]
                 msgs, metas = [], []
@@ -288,6 +291,9 @@ def pred_schedule(case, stats):
         fail('deadlock', {'detail': sched.deadlock, 'switches': sched.switch_log[-6:]}, 'every thread completes under every schedule')
     for i, err in out['errors'].items():
         fail('exception-in-session-thread', {'session': i, 'error': err}, 'no interleaving causes an exception')
+    handles = [x.handle for x in out['sessions']]
+    if None not in handles and len(set(handles)) != len(handles):
+        fail('sessions-open-at-once-share-a-session-handle', {'handles': handles}, 'every open session has its own session handle')
     # expected number of records
     want = sum(len(s) for s in case['sessions'])
     if len(hist) != want and not sched.deadlock and not out['errors']:
@@ -358,10 +364,21 @@ def stress_round(job):
     problems = []
     plock = threading.Lock()
     seen_max = {}
+    handles = []
+    barrier = threading.Barrier(nthreads)
 
     def client(i):
         try:
             sess = sim.TcpSession(srv, timeout=10.0)
+            extra = [sim.TcpSession(srv, timeout=10.0) for _ in range(2)]       # more sessions registering at the same moment
+            with plock:
+                handles.extend([sess.handle] + [x.handle for x in extra])
+            try:
+                barrier.wait(30)            # every session of the round is open now
+            except threading.BrokenBarrierError:
+                pass
+            for x in extra:
+                x.close()
             own = [0] * 8
             last_seen = {}
             for k in range(1, nreq + 1):
@@ -439,6 +456,8 @@ def stress_round(job):
         raise common.HarnessError('engine B: %r' % (harness[0][1],))
     s.case(case, nontrivial=True, classes=['engineB:round'])
     s.count('engineB:requests', nthreads * nreq)
+    if len(handles) == 3 * nthreads and len(set(handles)) != len(handles):
+        problems.append(('tcp:sessions-open-at-once-share-a-session-handle', {'handles': sorted(handles)[:12]}))
     for sig, d in problems:
         s.fail('stress', sig, case, observed=d, expected='isolation and atomicity under real thread preemption')
     if not srv.alive():
@@ -459,6 +478,7 @@ SWEEP_SCENARIOS = [
     {'sessions': [[{'kind': 'rs'}], [{'kind': 'ws'}]]},
     {'sessions': [[{'kind': 'bundle', 'members': ['ws', 'rp']}], [{'kind': 'bundle', 'members': ['rs', 'wp']}]]},
     {'sessions': [[{'kind': 'ws'}, {'kind': 'rs'}], [{'kind': 'ws'}, {'kind': 'rs'}]]},
+    {'sessions': [[{'kind': 'rp'}], [{'kind': 'wp'}]], 'register_inside': True},      # both sessions register under the schedule
 ]
 
 
@@ -504,7 +524,7 @@ def run(tier, seed):
     stats = Stats()
     m = common.parallel(measure_sweeps, [0], fork=True)
     lengths = m.extra['sweep_lengths']
-    scenarios = range(len(SWEEP_SCENARIOS)) if tier == 'thorough' else [0]
+    scenarios = range(len(SWEEP_SCENARIOS)) if tier == 'thorough' else [0, 4]
     jobs = []
     for si in scenarios:
         # thread 0's own share of the line events is at most the whole run's; preempting later than that is a no-op
